@@ -8,7 +8,10 @@ import (
 	"time"
 
 	"github.com/form3tech-oss/f1/v2/internal/metrics"
+	"github.com/form3tech-oss/f1/v2/internal/options"
 	"github.com/form3tech-oss/f1/v2/internal/progress"
+	"github.com/form3tech-oss/f1/v2/internal/run"
+	"github.com/form3tech-oss/f1/v2/internal/run/views"
 	f1testing "github.com/form3tech-oss/f1/v2/pkg/f1/testing"
 	"github.com/form3tech-oss/f1/v2/verifharness/core"
 	"github.com/form3tech-oss/f1/v2/verifharness/engine"
@@ -90,9 +93,17 @@ func init() {
 			for i := 0; i < nl; i++ {
 				cs = append(cs, core.MkCase("C17", "largesum", i, seed, map[string]int{"hours": i % 2}))
 			}
+			// figures read from the result by an observer while the progress tick refreshes them
+			for i := 0; i < map[string]int{"quick": 4, "thorough": 24}[tier]; i++ {
+				cse := core.MkCase("C17", "observer", i, seed, map[string]int{"refreshes": 60000})
+				cse.Race = i%2 == 1
+				cse.Procs = 16
+				cse.TimeoutMS = 60000
+				cs = append(cs, cse)
+			}
 			return cs
 		},
-		Kinds:  map[string]core.RunFunc{"measure": c17Measure, "aggregate": c17Aggregate, "largesum": c17LargeSum, "queue": c17Queue},
+		Kinds:  map[string]core.RunFunc{"measure": c17Measure, "aggregate": c17Aggregate, "largesum": c17LargeSum, "queue": c17Queue, "observer": c17Observer},
 		Floors: map[string]int64{"measured_iterations": 100, "sequences": 20000, "snapshots_checked": 50000, "empty_periods": 1000},
 	})
 }
@@ -486,4 +497,69 @@ func c17LargeSum(c *core.Case, o *core.Outcome) {
 	o.AddObs("sequences", 1)
 	o.Sig("largesum:d=%ds", d/1_000_000_000)
 	o.Sample = map[string]any{"records": n, "duration_ns": d, "accumulated_ns": life.sum}
+}
+
+// c17Observer: the statistics are used sequentially (one goroutine records one iteration per period and refreshes the
+// result, durations alternating between microseconds and hours); observers read Result.Snapshot() meanwhile. Every set of
+// figures an observer gets must be one the refreshing goroutine stored: the period covers exactly one iteration, so its
+// min, mean and max are equal, and they lie inside the lifetime range.
+func c17Observer(c *core.Case, o *core.Outcome) {
+	var pp map[string]int
+	c.Params(&pp)
+	n := pp["refreshes"]
+	if c.Race {
+		n /= 8
+	}
+	r := c.Rng("observer")
+	stats := &progress.Stats{}
+	res := run.NewResult(options.RunOptions{Scenario: "s"}, views.New(), stats)
+	var stop atomic.Bool
+	var wg sync.WaitGroup
+	var torn atomic.Value
+	var reads atomic.Int64
+	var distinct sync.Map
+	for g := 0; g < 4; g++ {
+		wg.Add(1)
+		go func() {
+			defer wg.Done()
+			for !stop.Load() {
+				s := res.Snapshot()
+				reads.Add(1)
+				per, life := s.SuccessfulIterationDurationsForPeriod, s.SuccessfulIterationDurations
+				if life.Count == 0 {
+					continue
+				}
+				distinct.Store(life.Count, true)
+				if per.Min != per.Max || per.Average != per.Min || per.Min < life.Min || per.Max > life.Max || life.Min > life.Average || life.Average > life.Max {
+					torn.CompareAndSwap(nil, fmt.Sprintf("period {%v} lifetime {%v, count %d}", per, life, life.Count))
+					return
+				}
+			}
+		}()
+	}
+	for i := 0; i < n && torn.Load() == nil; i++ {
+		d := int64(time.Microsecond) * int64(1+r.IntN(1000))
+		if i%2 == 1 {
+			d = int64(time.Hour) + int64(r.IntN(1000))
+		}
+		stats.Record(metrics.SuccessResult, d)
+		res.SnapshotProgress(time.Second)
+	}
+	stop.Store(true)
+	wg.Wait()
+	o.Events = reads.Load() + int64(n)
+	nd := 0
+	distinct.Range(func(_, _ any) bool { nd++; return true })
+	o.AddObs("observer_reads", reads.Load())
+	if t := torn.Load(); t != nil {
+		o.Violate("observer-torn", "figures read from the result while it was being refreshed: %s - every period covered exactly one iteration (min = mean = max, inside the lifetime range), so these figures cover no set of recorded iterations (%d refreshes, %d reads)", t, n, reads.Load())
+		return
+	}
+	if nd < 20 {
+		o.Inconc("the observers saw only %d distinct refreshes", nd)
+		return
+	}
+	o.AddObs("sequences", 1)
+	o.Sig("observer:race=%v", c.Race)
+	o.Sample = map[string]any{"refreshes": n, "reads": reads.Load(), "distinct_refreshes_seen": nd}
 }
